@@ -55,6 +55,10 @@ def rnd_report(rng, valid=True):
 
 def events(ctx):
     rng = ctx.rng
+    from ..core import source_constants
+    for c in source_constants():
+        yield record("reqid.unpack", {"octets": list(c) + [0x18, 0x42, 0xC0, 0x15]})
+        yield record("reqid.unpack", {"octets": (list(c) + [0x18, 0x42, 0xC0, 0x15][len(c):])[:4] + [9, 9]})
     # every value of each 16-bit half of the request ID
     for hi in range(65536):
         lo = rng.randrange(65536)
